@@ -288,7 +288,7 @@ def run(chk: core.Check) -> int:
     # fixed corners (every seed): string defaults wrapped in two layers of quote characters, through every format that carries defaults in code
     from collections import OrderedDict as _OD
 
-    for fmt in ("function", "class", "pydantic", "argparse", "docstring-rest"):
+    for fmt in ("function", "class", "pydantic", "argparse", "docstring-rest", "sqlalchemy", "sqlalchemy_table", "sqlalchemy_hybrid", "json_schema", "docstring-google", "docstring-numpydoc"):
         for dflt in ("'\"N/A\"'", "\"'x'\""):
             for edd in (True, False):
                 cases.append(({"name": "F", "doc": "Summary line.", "type": "static", "returns": None,
